@@ -86,10 +86,15 @@ func init() {
 	})
 	register(&Check{
 		ID: "C03", Level: "exploration",
-		Rule:        "same histories as C01 biased to delays and cancels of waiting jobs; restated liveness: (1) at every logical quiescence no job waits although the model says it must have started (free slot, delay expired, unchanged definition), (2) after the drain (all gates released, all delays expired) every accepted job is completed or canceled; a situation is (admission class, delayed?) at drain",
+		Rule:        "same histories as C01 biased to delays and cancels of waiting jobs; restated liveness: (1) at every logical quiescence no job waits although the model says it must have started (free slot, delay expired, unchanged definition), (2) after the drain (all gates released, all delays expired) every accepted job is completed or canceled, (3) every 8th case: a runner restarted on a prepared store (jobs in every persisted state) starts the next job of every pipeline; a situation is (admission class, delayed?) at drain",
 		Assumptions: []string{seqAssumption, "unbounded 'eventually' is restated as 'nothing enabled is left undone at logical quiescence' (DESIGN.md section 6)"},
 		Cases:       func(t string) int { return tierN(t, 1600, 40000) },
 		RunCase: func(c *CaseCtx) *CaseResult {
+			if c.Idx%8 == 2 {
+				// jobs accepted after a restart: the store may hold jobs in any state, also states that exist only for an
+				// instant (all tasks done, job not yet completed); none of them may keep a later job from running
+				return simpleCase(c, drv.PreparedStoreCase(c.Seed, c.TmpDir), 100)
+			}
 			o := admissionOpts(c.Idx + 7)
 			o.WCancel, o.WFire, o.WSchedule, o.WFinish, o.WStopRel, o.WRead = 22, 16, 34, 24, 6, 1
 			if c.Idx%4 == 3 {
